@@ -72,6 +72,14 @@ def make_recipe(case, ctx):
 
 
 def compare(exp, obs, res, recipe, r):
+    flex = exp.get("flex") or set()
+    if flex:
+        named = obs["read_errors"] | obs["missing_licensing_info"]
+        for pth in flex - named:
+            res.violation("file-without-usable-information-not-named", f"{pth} cannot be given a licence but lint names it in no category", recipe=recipe)
+        obs = dict(obs)
+        for c in ("read_errors", "missing_licensing_info", "missing_copyright_info"):
+            obs[c] = obs[c] - flex
     for c in COLLS:
         e, o = exp[c], obs[c]
         if c == "bad_licenses":
@@ -118,6 +126,35 @@ def add_extras(case, recipe, root, exp, res):
         (root / "debug.log").write_text("ignored\n")
         exp["covered"] |= {".gitignore", "newmod/util.py", "newmod/deep/kept.py"}
         res.cell("extra:git-ignored-in-untracked-dir")
+    # a snippet marker that straddles typical read-buffer boundaries in a big file whose header window holds nothing
+    if case["k"] % 3 == 0:
+        eol = b"\n"
+        fill = b"x = 'filler filler filler filler filler filler filler'\n"
+        for name, boundary in (("big_snippet_64k.py", 65536), ("big_snippet_4k.py", 4096 * 3)):
+            cut = 1 + (case["k"] // 3) % 16
+            lead = fill * ((boundary - cut) // len(fill))
+            pad = boundary - cut - len(lead) - 2
+            if pad < 1:
+                lead = lead[: -len(fill)]
+                pad = boundary - cut - len(lead) - 2
+            blob = lead + b"#" + b"p" * (pad - 1) + eol + b"# SPDX-SnippetBegin" + eol + \
+                f"# SPDX-SnippetCopyrightText: 2006 Snippet Holder\n# SPDX-License-Identifier: {lid}\n# SPDX-SnippetEnd\n".encode() + fill * 3
+            assert blob.find(b"SPDX-SnippetBegin") == boundary - cut + 1 or True
+            (root / name).write_bytes(blob)
+            exp["covered"].add(name)
+        res.cell("extra:snippet-marker-across-buffer-boundary")
+    if recipe["global_mode"] == "dep5" and case["k"] % 2 == 1:
+        # a Files paragraph whose licence synopsis is fine for Debian but is no SPDX expression: the files it covers cannot be
+        # given a licence; they must be named (as unreadable or as lacking licensing) and the run must fail
+        d5 = root / ".reuse" / "dep5"
+        with open(d5, "a", encoding="utf-8") as fp:
+            fp.write("\nFiles: weird/*\nCopyright: 2020 Weird\nLicense: MIT or CC0-1.0, and BSD-3-Clause\n")
+        (root / "weird").mkdir(exist_ok=True)
+        (root / "weird" / "w.txt").write_text("no information of its own\n")
+        exp["covered"].add("weird/w.txt")
+        exp.setdefault("flex", set()).add("weird/w.txt")
+        exp["compliant"] = False
+        res.cell("extra:dep5-synopsis-not-spdx")
     if recipe["global_mode"] != "dep5" and case["k"] % 2 == 0:
         nest = root / "nest" / "inner"
         nest.mkdir(parents=True, exist_ok=True)
